@@ -2,7 +2,7 @@
 From Coq Require Import String.
 From Coq Require Import List NArith Arith Bool Lia.
 Import ListNotations.
-From TV Require Import C01.Model C01.Proofs1 C01.Proofs2 C01.Proofs3 C01.Proofs4 C01.Proofs6 C04.Model C04.Proofs.
+From TV Require Import C01.Model C01.Proofs1 C01.Proofs2 C01.Proofs3 C01.Proofs4 C01.Proofs6 C04.Model C04.Run C04.Proofs.
 Local Open Scope N_scope.
 
 (* ---------- max_header_size ---------- *)
@@ -203,3 +203,23 @@ Qed.
 Theorem within_limits_unaffected c c' b :
   limits_le c c' -> no_refusal (strict_reader c b) = true -> strict_reader c' b = strict_reader c b.
 Proof. intros LL NR. unfold strict_reader, serve in *. apply serve_loop_mono; assumption. Qed.
+
+(* ---------- the header limit when max_header_size is left unset ---------- *)
+Lemma unset_header_limit_default mh :
+  mh = None \/ mh = Some 0%nat -> conn_max_header mh = DEFAULT_MAX_HEADER.
+Proof. intros [->| ->]; reflexivity. Qed.
+
+Theorem unset_header_limit_enforced (i : input) b e :
+  mh_of i = None \/ mh_of i = Some 0%nat ->
+  max_header (cfg_of i) = DEFAULT_MAX_HEADER /\
+  (find_term b = Some e -> (DEFAULT_MAX_HEADER < e)%nat -> strict_reader (cfg_of i) b = [EvClosed]) /\
+  (find_term b = None -> (DEFAULT_MAX_HEADER < length b)%nat -> strict_reader (cfg_of i) b = [EvClosed]).
+Proof.
+  intros H.
+  assert (M : max_header (cfg_of i) = DEFAULT_MAX_HEADER).
+  { destruct i as [[[[[[[mh mb] sb] ov] cs] d] t] segs]. cbn [mh_of] in H. cbn [cfg_of max_header].
+    apply unset_header_limit_default. exact H. }
+  split; [exact M|]. split.
+  - intros F L. apply (header_over_limit (cfg_of i) b e F). rewrite M. exact L.
+  - intros F L. apply (header_unterminated_over_limit (cfg_of i) b F). rewrite M. exact L.
+Qed.
